@@ -90,6 +90,11 @@ pub fn run(ctx: &Ctx) -> Report {
                 for (sig, detail) in multi_cells(&mut w, n + cfg as u64, &mut rep) {
                     rep.violate("C17", sig, detail.clone(), json!({"engine": "e5_routing", "cell": detail, "configuration": cfg}));
                 }
+                if cfg % 16 == 1 {
+                    for (sig, detail) in attached_funds_cells(&mut w, n + cfg as u64, &mut rep) {
+                        rep.violate("C17", sig, detail.clone(), json!({"engine": "e5_routing", "cell": detail, "configuration": cfg}));
+                    }
+                }
                 if cfg % 8 == 0 {
                     for (sig, detail) in bulk_cells(&mut w, n + cfg as u64, &mut rep) {
                         rep.violate("C17", sig, detail.clone(), json!({"engine": "e5_routing", "cell": detail, "configuration": cfg}));
@@ -141,7 +146,7 @@ pub fn run(ctx: &Ctx) -> Report {
     rep.assume("QueryRequest::Distribution is not generated: the architecture has no module whose query type accepts it");
     rep.assume("CosmosMsg::Custom cannot be expressed by a contract written against Empty; SudoMsg::Custom is unimplemented by design and not exercised");
     rep.assume("wasm messages are routed to the real WasmKeeper (observed through the contracts' trace in C01-C05)");
-    for k in ["c17/configurations", "c17/log_entries_checked", "c17/failed_tx_state_unchanged_checks", "c17/caught_failure_rollback_checks", "c17/reply_data_from_module_checked", "c17/reply_after_module_answer/no-data+no-events", "c17/reply_after_module_answer/data+events", "c17/sudo/staking", "c17/same_submessage_listed_twice", "c17/empty_chain/top/accepting", "c17/empty_chain/contract-with-reply/accepting", "c17/empty_chain/contract/failing", "c17/multi/all-accepted", "c17/multi/message-0-fails", "c17/multi/message-1-fails", "c17/multi/message-2-fails", "c17/builtin/all-accepting/Gov/lifted/accepting", "c17/builtin/all-failing/Any/puppet/failing", "c17/bulk/one-response-with-over-256-messages", "c17/bulk/one-batch-with-over-256-messages", "c17/reduced_features/default/cells", "c17/reduced_features/cosmwasm_2_0/msg:any", "c17/reduced_features/cosmwasm_2_0/query:grpc", "c17/reduced_features/stargate/msg:gov", "c17/reduced_features/staking/msg:distribution", "c17/reduced_features/staking+stargate+cosmwasm_1_4/cells"] {
+    for k in ["c17/configurations", "c17/log_entries_checked", "c17/failed_tx_state_unchanged_checks", "c17/caught_failure_rollback_checks", "c17/reply_data_from_module_checked", "c17/reply_after_module_answer/no-data+no-events", "c17/reply_after_module_answer/data+events", "c17/sudo/staking", "c17/same_submessage_listed_twice", "c17/empty_chain/top/accepting", "c17/empty_chain/contract-with-reply/accepting", "c17/empty_chain/contract/failing", "c17/multi/all-accepted", "c17/multi/message-0-fails", "c17/multi/message-1-fails", "c17/multi/message-2-fails", "c17/builtin/all-accepting/Gov/lifted/accepting", "c17/builtin/all-failing/Any/puppet/failing", "c17/bulk/one-response-with-over-256-messages", "c17/attached_funds_cells", "c17/bulk/one-batch-with-over-256-messages", "c17/reduced_features/default/cells", "c17/reduced_features/cosmwasm_2_0/msg:any", "c17/reduced_features/cosmwasm_2_0/query:grpc", "c17/reduced_features/stargate/msg:gov", "c17/reduced_features/staking/msg:distribution", "c17/reduced_features/staking+stargate+cosmwasm_1_4/cells"] {
         rep.require(k);
     }
     rep
